@@ -1,0 +1,29 @@
+//go:build verif
+
+// Package verifhook provides named instrumentation points for external
+// runtime monitors. With the "verif" build tag a handler can be installed
+// that is called at every point; it may log, delay, block or kill.
+package verifhook
+
+import "sync/atomic"
+
+type handler struct{ f func(name string, id uint32) }
+
+var cur atomic.Pointer[handler]
+
+// Set installs (or, with nil, removes) the handler.
+func Set(f func(name string, id uint32)) {
+	if f == nil {
+		cur.Store(nil)
+		return
+	}
+	cur.Store(&handler{f: f})
+}
+
+// Point marks a named place in the code; id is the broker/service id the
+// goroutine is working on where there is one, 0 otherwise.
+func Point(name string, id uint32) {
+	if h := cur.Load(); h != nil {
+		h.f(name, id)
+	}
+}
